@@ -49,15 +49,10 @@ theorem generation_monotone_sched (cfg : Config) (ops : List (Op R)) (db : DB R)
     (fun s s' hs q => (q hs).ids) (fun a b c t hb q => t.trans (q hb)) db sched db _ hI (GenLe.refl hI)
   exact this.1.rp_mono hI hr hr' hid
 
-/-! ## The requests that carry a provider generation -/
+/-! ## The requests that carry a provider generation
 
-/-- the request carries generation `g` for the provider with uuid `u`
-(PUT inventories, PUT one inventory, PUT aggregates from 1.19) -/
-def carries (u g : Nat) : Op R → Bool
-  | .invSet _ u' g' _ => u' == u && g' == g
-  | .invUpdate _ u' g' _ => u' == u && g' == g
-  | .aggsSet mv u' g' _ => u' == u && g' == some g && decide (mv ≥ 19)
-  | _ => false
+`carries u g op` (Lemmas/SchedRp2.lean): `op` is PUT inventories / PUT one inventory / PUT aggregates
+(>= 1.19) for provider uuid `u` carrying generation `g`; `carriesT` additionally admits PUT traits. -/
 
 /-- **guarded_write_sees_generation** (one transaction).  The write transaction of a guarded
 request, entered with the provider id `p` and generation `g` read before: a 2xx answer implies that
@@ -96,23 +91,6 @@ theorem guarded_write_sees_generation (p g : Nat) (db : DB R) :
       · obtain ⟨h1, h2, h3⟩ := cas_commit hg hc
         exact ⟨fun r _ _ => ⟨h1, h3, h2⟩, fun r hr hok => by cases hr; exact absurd hok (by decide)⟩
     · exact ⟨fun r hr hok => by cases hr; exact absurd hok (errAggs_not_ok _), fun _ _ _ => rfl⟩
-
-/-- a request carrying `(u, g)`: on every path to a 2xx answer, its write transaction runs the
-compare-and-swap on `(p, g)`, `p` the provider `u` names -/
-theorem carries_commits (cfg : Config) {u g : Nat} {op : Op R} (h : carries u g op = true) (o : Option Nat)
-    (p : Nat) (ho : ∀ p', o = some p' → p' = p) :
-    Commits (WRp u o) okR (CRp (R := R) u p g) (BRp p g) (prog cfg op) := by
-  cases op <;> simp only [carries, Bool.and_eq_true, beq_iff_eq, decide_eq_true_eq, Bool.false_eq_true] at h
-  · obtain ⟨rfl, rfl⟩ := h; exact pInvSet_commits _ _ _ p ho
-  · obtain ⟨rfl, rfl⟩ := h; exact pInvUpdate_commits _ _ _ p ho
-  · obtain ⟨⟨rfl, rfl⟩, hmv⟩ := h; exact pAggsSet_commits _ _ hmv _ p ho
-
-/-- the pool: no request creates, updates or deletes providers -/
-theorem pool_evo (cfg : Config) (ops : List (Op R)) (hops : ∀ op ∈ ops, isProviderOp op = false) :
-    PoolAll (QEvo (R := R) (fun _ => True)) (ops.map (prog cfg)) := by
-  intro p hp
-  obtain ⟨op, hop, rfl⟩ := List.mem_map.mp hp
-  exact prog_evo cfg op (hops op hop) (fun _ _ => trivial)
 
 /-- **guarded_commit_sees_generation** (every schedule).  If request `i` of the pool carries
 generation `g` for provider `u` and answers 2xx, then the schedule splits at a step of request `i`
@@ -350,22 +328,6 @@ theorem C05_witness_noop_traits :
     let fin := Prog.runSched [1, 1, 0, 0, 0, 1] Wf.exDb (pool.map (prog Wf.exCfg))
     fin.2.map Prog.result? = [some r200, some r200] ∧ fin.1.rpByUuid 101 = some ⟨2, 101, 201, 4, some 1, 1⟩ := by
   decide
-
-/-- the request carries generation `g` for provider `u`, PUT traits included -/
-def carriesT (u g : Nat) (op : Op R) : Bool :=
-  carries u g op || (match op with
-    | .rpTraitsSet u' g' _ => u' == u && g' == g
-    | _ => false)
-
-theorem carriesT_coq (cfg : Config) {u g : Nat} {op : Op R} (h : carriesT u g op = true) (o : Option Nat)
-    (p : Nat) (ho : ∀ p', o = some p' → p' = p) :
-    CoQ (WRp u o) (CRp (R := R) u p g) (BRp p g) (prog cfg op) := by
-  cases op <;> simp only [carriesT, carries, Bool.and_eq_true, Bool.or_eq_true, beq_iff_eq, decide_eq_true_eq,
-    Bool.false_eq_true, or_false, false_or, or_self] at h
-  · obtain ⟨rfl, rfl⟩ := h; exact pInvSet_coq _ _ _ p ho
-  · obtain ⟨rfl, rfl⟩ := h; exact pInvUpdate_coq _ _ _ p ho
-  · obtain ⟨rfl, rfl⟩ := h; exact pRpTraitsSet_coq _ _ p ho
-  · obtain ⟨⟨rfl, rfl⟩, hmv⟩ := h; exact pAggsSet_coq _ _ hmv _ p ho
 
 /-- **at_most_one_effective_writer_same_generation** (PUT traits included; the `_partial` form of
 `at_most_one_success_same_generation` for PUT traits).  Any pool, any schedule: of the requests
